@@ -670,6 +670,97 @@ pub fn slice_g_run<S: Sch>(rec: &mut Rec) {
     }
 }
 
+
+/// One slice-F flow by scheme name and universe index (for the fresh-process oracle of slice H).
+pub fn flow_digest_by_name(rec: &mut Rec, scheme: &str, u: usize) -> Option<Result<String, String>> {
+    let mut out = None;
+    crate::for_each_scheme!(S, {
+        if S::NAME == scheme {
+            let us = slice_f_universes::<S>();
+            if u < us.len() {
+                out = Some(slice_f_flow::<S>(rec, &us[u]));
+            }
+        }
+    });
+    out
+}
+
+/// `pcmc f-digest <scheme> <universe>`: the digest of one flow computed in a process that has done nothing else.
+pub fn print_flow_digest(seed: u64, scheme: &str, u: usize) {
+    let mut rec = Rec::new("C01", "quick", seed, (0, 1));
+    match flow_digest_by_name(&mut rec, scheme, u) {
+        Some(Ok(d)) => println!("F-DIGEST\t{}\t{}\t{}", scheme, u, d),
+        Some(Err(e)) => println!("F-DIGEST\t{}\t{}\tfailed: {}", scheme, u, e),
+        None => println!("F-DIGEST\t{}\t{}\tunknown", scheme, u),
+    }
+}
+
+/// Slice H: process state ACROSS schemes.  For every ordered pair (X, Y) of the eight trait schemes: the flow of X (universe
+/// 0) and then the flow of Y (universe 0, and universe 2 = another configuration) in this process; Y's outputs must be
+/// bit-identical to the outputs of the same flow computed by a FRESH process that has never run anything else
+/// (`pcmc f-digest`, spawned once per flow and worker).  A lazily initialised static or thread-local shared by two
+/// schemes (a scratch buffer, a cached generator or domain) shows up here whatever the order in which the checks of one
+/// worker happen to run; slice F (same scheme, same process) cannot see it because its baseline is computed in the
+/// already polluted process.
+pub fn slice_h_run(rec: &mut Rec) {
+    use std::collections::BTreeMap;
+    let names = ["MAR", "SON", "IPA", "PST", "HYR", "LIG", "MLL", "BRK"];
+    let exe = match std::env::current_exe() {
+        Ok(e) => e,
+        Err(_) => return,
+    };
+    rec.scope(format!("slice H: every ordered pair of the {} trait schemes, flow of the first then flows (universes 0 and 2) of the second, compared with fresh-process digests", names.len()));
+    let mut fresh: BTreeMap<(String, usize), Option<String>> = BTreeMap::new();
+    for x in names.iter() {
+        for y in names.iter() {
+            if x == y {
+                continue;
+            }
+            let id = format!("H/{}-then-{}", x, y);
+            if !rec.take(&id) {
+                continue;
+            }
+            rec.dim("slice", "H");
+            rec.dim("scheme", y);
+            let _ = flow_digest_by_name(rec, x, 0);
+            for u in [0usize, 2] {
+                let key = (y.to_string(), u);
+                if !fresh.contains_key(&key) {
+                    let o = std::process::Command::new(&exe).args(["f-digest", "C01", y, &u.to_string(), "--seed", &rec.seed.to_string()]).env("RAYON_NUM_THREADS", "1").output();
+                    let d = o.ok().and_then(|o| {
+                        String::from_utf8_lossy(&o.stdout).lines().find(|l| l.starts_with("F-DIGEST")).map(|l| l.split('\t').nth(3).unwrap_or("").to_string())
+                    });
+                    fresh.insert(key.clone(), d);
+                }
+                let want = match &fresh[&key] {
+                    Some(w) if !w.is_empty() && w != "unknown" => w.clone(),
+                    _ => {
+                        rec.note(format!("MACHINERY: no fresh-process digest for {} universe {}", y, u));
+                        rec.class("fresh-digest-unavailable");
+                        continue;
+                    }
+                };
+                match flow_digest_by_name(rec, y, u) {
+                    Some(Ok(d)) => {
+                        let same = d == want;
+                        rec.class(if same { "matches-fresh-process" } else { "differs-from-fresh-process" });
+                        if !same {
+                            fail(rec, y, "flow", "after-another-scheme/outputs-differ-from-fresh-process", &id, format!("flow of {} (universe {}) after a flow of {} in the same process gives digest {}, a fresh process gives {}", y, u, x, d, want));
+                        }
+                    }
+                    Some(Err(e)) => {
+                        rec.class("flow-failed");
+                        if !want.starts_with("failed") {
+                            fail(rec, y, "flow", "after-another-scheme/flow-fails", &id, format!("flow of {} (universe {}) after a flow of {} fails: {} (a fresh process succeeds)", y, u, x, e));
+                        }
+                    }
+                    None => {}
+                }
+            }
+        }
+    }
+}
+
 /// Univariate Ligero: polynomials of different sizes (different column counts; equal column counts
 /// with different row counts) opened by ONE open / check call and by a one-label batch, every ordered pair.
 pub fn lig_one_call(rec: &mut Rec) {
@@ -737,4 +828,5 @@ pub fn run(rec: &mut Rec) {
     crate::special::c01_special(rec);
     crate::special::c01_special_ladder(rec);
     crate::special::c01_special_universes(rec);
+    slice_h_run(rec);
 }
